@@ -768,6 +768,19 @@ func (tree *MutableTree) SaveVersion() ([]byte, int64, error) {
 
 	tree.logger.Debug("SAVE TREE", "version", version)
 
+	// Readers of the version that is the latest one so far trust the persisted fast index as long
+	// as their version equals the cached latest version. The index is rewritten by the writes
+	// below (at the latest when the batch is committed), so the latest version is advanced first:
+	// from here on such readers walk the tree. It is put back if the commit fails.
+	previousLatest := tree.ndb.getCachedLatestVersion()
+	tree.ndb.resetLatestVersion(version)
+	committed := false
+	defer func() {
+		if !committed {
+			tree.ndb.resetLatestVersion(previousLatest)
+		}
+	}()
+
 	// save new fast nodes
 	if !tree.skipFastStorageUpgrade {
 		if err := tree.saveFastNodeVersion(version); err != nil {
@@ -808,9 +821,9 @@ func (tree *MutableTree) SaveVersion() ([]byte, int64, error) {
 	if err := tree.ndb.Commit(); err != nil {
 		return nil, version, err
 	}
+	committed = true
 	verifYield("save:committed")
 
-	tree.ndb.resetLatestVersion(version)
 	tree.version = version
 
 	// set new working tree
